@@ -10,7 +10,9 @@ open Golem.Props.C10
 #print axioms forkfold_closes
 #print axioms gen_forkfold_caps
 #print axioms gen_forkfold_workers
+#print axioms gen_collector_at_wait
 #print axioms Golem.Props.Stage.ForkFold.stage_gen
 #print axioms Golem.Props.Stage.ForkFold.cfg_gen
 #print axioms Golem.Props.Stage.ForkFold.init_gen
+#print axioms Golem.Props.Stage.ForkFold.collector_gen_hand
 #print axioms Golem.Props.Stage.ForkFold.collector_gen
